@@ -78,8 +78,8 @@ Fixpoint subterms (e : expr) : list expr :=
        | EDictE l => flat_map (fun p => subterms (fst p) ++ subterms (snd p)) l
        | EBin _ a b | ECmp _ a b | EWhere a b | EDArrow a b | ESeqArrow _ a b
        | ECall a b | EArrow a b | EAnd a b | EOr a b => subterms a ++ subterms b
-       | ELet _ a b => subterms a ++ subterms b
-       | EUn _ a | EDot a _ | EFn _ a => subterms a
+       | ELet _ a b | EJoin _ a b | ERank a b => subterms a ++ subterms b
+       | EUn _ a | EDot a _ | EFn _ a | ENest _ _ _ a | ESingleNest _ a => subterms a
        | ESafeCall a b c => subterms a ++ subterms b ++ subterms c
        | ESafeDot a _ d => subterms a ++ subterms d
        | ECond arms d => flat_map (fun p => subterms (fst p) ++ subterms (snd p)) arms
